@@ -298,9 +298,9 @@ def _concrete_compare(part, p, cf, cse, k, scn, key_base, info, envs, reason):
 
 def configs(tier, seed):
     if tier == "quick":
-        return [(CP.P3(), True, 4.0), (CP.P3().restrict(control=False, calibration=False), False, None), (CP.P1(), True, None), (CP.P8(), True, 3.0)]
+        return [(CP.P3(), True, 4.0), (CP.P3().restrict(control=False, calibration=False), False, None), (CP.P1(), True, None), (CP.P8(), True, 3.0), (CP.P17(), True, None)]
     out = []
-    progs = [CP.P1(), CP.P2(), CP.P7(), CP.P8()] + CP.presence_variants(CP.P3()) + CP.presence_variants(CP.P10())
+    progs = [CP.P1(), CP.P2(), CP.P7(), CP.P8(), CP.P17(), CP.P19(), CP.P20()] + CP.presence_variants(CP.P3()) + CP.presence_variants(CP.P10())
     progs += [CP.random_program(seed, i) for i in range(6)]
     for p in progs:
         out.append((p, True, 4.0))
